@@ -34,6 +34,8 @@ def run(ctx, repo):
     RX.r_timestamp_exact(ctx, repo)
     RX.r_alias_key_fresh(ctx, repo)
     RX.r_escape_introducer(ctx, repo)
+    RX.r_fold_leading_space(ctx, repo)
+
 
 if __name__ == '__main__':
     sys.exit(report.main('C02', 'other', run))
